@@ -157,7 +157,7 @@ def run(tier):
     items = []
     for origin, text in pool:
         toks = corpus.lex_tokens(text)
-        if 0 < len(toks) <= (40 if quick else 80):
+        if 0 < len(toks) <= (28 if quick else 80):
             items.append((origin, toks))
     for name, toks in corpus.small_corpus_tokens(130 if quick else 900):
         items.append((f"K:{name}", toks))
@@ -197,7 +197,7 @@ def run(tier):
     R.set("paren_variants", pn)
     R.set("programs", distinct)
     R.set("pool_parts", getattr(progpool.build_pool, "sizes", {}))
-    R.set("bounds", {"max_tokens_per_program": 40 if quick else 80, "pairs_of_gaps_for_tokens<=": pair_max,
+    R.set("bounds", {"max_tokens_per_program": 28 if quick else 80, "pairs_of_gaps_for_tokens<=": pair_max,
                      "separators": SEPS, "directives": [n for n, _ in _directives()]})
     return R.finish(
         [" ".join(t) for _, t in core.pick_samples(uniq)],
